@@ -179,6 +179,7 @@ class Lab:
         self.evictions = 0
         self.hits_seen = 0
         self.evict_after_hit = False
+        self.saw_duplicates = False
         self.open_cache(first=True)
 
     # -- lifecycle
@@ -363,7 +364,8 @@ class Lab:
         elif kind == "missing":
             self.res.missing.add(target["name"])
         else:
-            self.res.faults[target["name"]] = dict(fault)
+            # the fault applies to every fetch of that resource during this request
+            self.res.faults[target["name"]] = dict(fault, sticky=True)
         log0 = len(self.res.log)
         raised = None
         paths = None
@@ -383,11 +385,11 @@ class Lab:
         not_found = kind in ("not_found", "missing")
         if not_found and self.tolerant:
             require(raised is None, "tolerant_mode_omits_missing_uri_without_raising", f"{raws} raised {raised}")
-            exp = [os.path.join(self.dir, cache_file_name(k)) for i, k in enumerate(keys) if i != pos]
+            exp = [os.path.join(self.dir, cache_file_name(k)) for i, k in enumerate(keys) if k != keys[pos]]
             require([os.path.basename(p) for p in paths] == [os.path.basename(p) for p in exp],
                     "tolerant_mode_omits_exactly_the_failed_uri", f"request={raws} failed={raws[pos]} returned={paths}")
             for i, (it, key) in enumerate(zip(items, keys)):
-                if i == pos:
+                if key == keys[pos]:
                     continue
                 p = os.path.join(self.dir, cache_file_name(key))
                 expb = before[key]["bytes"] if key in before and it.get("validate") != "vbad" \
@@ -422,7 +424,7 @@ class Lab:
         if raised is not None or not_found:
             # nothing of the failed download may sit under the final cache name: neither a partial file
             # nor a complete one whose post-processing failed
-            if keys[pos] not in before or keys[pos] in rejected:
+            if (keys[pos] not in before or keys[pos] in rejected) and list(keys).count(keys[pos]) == 1:
                 pth = os.path.join(self.dir, cache_file_name(keys[pos]))
                 require(not os.path.exists(pth), "failed_download_leaves_nothing_under_the_cache_name",
                         f"{where}: {keys[pos]} fault={fault}: a file of {os.path.getsize(pth) if os.path.exists(pth) else 0} "
@@ -446,18 +448,33 @@ class Lab:
             keys.append(key)
         before = dict(self.model)
         log0 = len(self.res.log)
+        # per resource: how many fetches are admissible. A cached key is fetched only from its first occurrence
+        # carrying a failing validation on (later occurrences in the same request then find it gone); a key
+        # that is not cached is fetched at least once and at most once per occurrence.
         want_fetch = []
+        gone = set()
+        nhits = 0
         for it, key in zip(items, keys):
-            hit = key in self.model and it.get("validate") != "vbad"
-            if not hit and it.get("scheme", "mem") == "mem":
+            hit = key in self.model and key not in gone and it.get("validate") != "vbad"
+            if hit:
+                nhits += 1
+                continue
+            gone.add(key)
+            if it.get("scheme", "mem") == "mem":
                 want_fetch.append("mem://" + it["name"])
-        nhits = sum(1 for it, key in zip(items, keys) if key in self.model and it.get("validate") != "vbad")
+        rejected_here = {key for it, key in zip(items, keys) if key in gone}
+        if len(set(keys)) < len(keys):
+            self.saw_duplicates = True
         with warnings.catch_warnings():
             warnings.simplefilter("ignore")
             arg = raws[0] if len(raws) == 1 and items[0].get("as_str") else raws
             paths = self.cache[arg]
         fetched = self.res.log[log0:]
-        require(sorted(fetched) == sorted(want_fetch), "hits_served_without_contacting_resource",
+        # every miss is fetched; a URI named several times in one request is fetched at least once and at
+        # most once per occurrence (the property does not say which); hits are never fetched
+        from collections import Counter
+        cf, cw = Counter(fetched), Counter(want_fetch)
+        require(set(cf) == set(cw) and all(1 <= cf[u] <= cw[u] for u in cw), "hits_served_without_contacting_resource",
                 f"request={raws} fetched={fetched} expected fetches={want_fetch}")
         require(isinstance(paths, list) and len(paths) == len(items), "one_path_per_uri",
                 f"request={raws} returned {paths!r}")
@@ -468,9 +485,19 @@ class Lab:
         require(len(set(paths)) == len(set(keys)), "distinct_uris_never_share_a_file", f"{raws} -> {paths}")
         touched = self.observe_touched()
         req_bytes = 0
+        fresh = {}
+        for it, key in zip(items, keys):
+            if key not in before or key in rejected_here:
+                # fetched in this request; if named twice with different directives either may have won
+                fresh.setdefault(key, set()).add(bool(it.get("postprocess")))
         for it, key, p in zip(items, keys, paths):
-            exp = expected_bytes(it["name"], it.get("postprocess")) if key not in before or it.get("validate") == "vbad" \
-                else before[key]["bytes"]
+            if key in fresh:
+                cands = [expected_bytes(it["name"], pp) for pp in fresh[key]]
+            else:
+                cands = [before[key]["bytes"]]
+            with open(p, "rb") as fh0:
+                d0 = fh0.read() if os.path.isfile(p) else None
+            exp = d0 if d0 in cands else cands[0]
             require(os.path.isfile(p), "returned_path_exists", f"key={key} path={p}")
             with open(p, "rb") as fh:
                 data = fh.read()
